@@ -294,6 +294,19 @@ def _loose(o, strict_synsets: set, path=''):
     return o
 
 
+_PRIMER = {'lmf_version': '1.1', 'lexicons': [{
+    'id': 'zz-primer', 'version': '1', 'label': 'primer', 'language': 'en', 'email': 'e',
+    'license': 'l', 'meta': None,
+    'entries': [{'id': 'zz-primer-e', 'meta': None,
+                 'lemma': {'writtenForm': 'primer', 'partOfSpeech': 'n'},
+                 'senses': [{'id': 'zz-primer-s', 'synset': 'zz-primer-ss', 'meta': None,
+                             'subcat': ['zz-primer-f']}]}],
+    'synsets': [{'id': 'zz-primer-ss', 'ili': '', 'partOfSpeech': 'n', 'meta': None,
+                 'lexfile': 'noun.primer',
+                 'definitions': [{'text': 'primer', 'meta': None}]}],
+    'frames': [{'id': 'zz-primer-f', 'subcategorizationFrame': 'Primer ----s'}]}]}
+
+
 def oracle(case):
     import wn
     import wn.lmf
@@ -302,6 +315,12 @@ def oracle(case):
     work = env.new_dir('c03')
     out: list[Disc] = []
     db1 = env.fresh_db()
+    # the database has been in use before: another lexicon is installed and has been queried
+    # (its lexfile, its frames) in this process before the resource arrives
+    wn.add_lexical_resource(_PRIMER, progress_handler=None)
+    _pw = wn.Wordnet('zz-primer:1')
+    [(x.lexfile(), x.definition()) for x in _pw.synsets()]
+    [x.frames() for x in _pw.senses()]
     wn.add(xmlw.write(res, work / 'src.xml', case['style']), progress_handler=None)
     for i, b in enumerate(case['bystanders']):
         wn.add(xmlw.write(b, work / f'by{i}.xml', None), progress_handler=None)
